@@ -27,6 +27,8 @@ struct MergeCtx {
 Bytes union_values(const Bytes &a, const Bytes &b);
 void merge_union_cb(void *clos, const uint8_t *key, size_t len_key, const uint8_t *v0, size_t l0,
 		    const uint8_t *v1, size_t l1, uint8_t **out, size_t *lout);
+void merge_failF_cb(void *clos, const uint8_t *key, size_t len_key, const uint8_t *v0, size_t l0,
+		    const uint8_t *v1, size_t l1, uint8_t **out, size_t *lout);
 int dupsort_bytes_cb(void *, const uint8_t *, size_t, const uint8_t *v0, size_t l0, const uint8_t *v1, size_t l1);
 
 struct USource {
